@@ -89,15 +89,18 @@ def extract(ctx):
     facts["ralSigStart"] = int(mm.group(1))
     facts["ralSigStride"] = int(m4.group(1))
     rb = []
-    for name, conv, w in (("emitterChainId", "u256From2Byte!", 2), ("targetChainId", "u256From2Byte!", 2),
-                          ("emitterAddress", "", 32), ("sequence", "u256From8Byte!", 8)):
-        mm = re.search(r"let %s\s*=\s*%s\(?byteVecSlice!\(body,\s*(\d+),\s*(\d+)\)\)?" % (name, re.escape(conv)), fn)
+    conv_mismatch = []
+    for name in ("emitterChainId", "targetChainId", "emitterAddress", "sequence"):
+        # any conversion width is accepted here: a wrong width / offset is emitted as a fact, so that the Lean theorem
+        # fails and the check can name the deviating field (rather than the extractor giving up)
+        mm = re.search(r"let %s\s*=\s*(?:u256From(\d+)Byte!\()?byteVecSlice!\(body,\s*(\d+),\s*(\d+)\)\)?" % name, fn)
         if not mm:
             ctx.gen_fail("C04", "body field %s not found in parseAndVerifyVAA" % name); return None
-        if int(mm.group(2)) - int(mm.group(1)) != w:
-            # still emit: the theorem will fail and the search will report it
-            pass
-        rb.append((name, int(mm.group(1)), int(mm.group(2)) - int(mm.group(1))))
+        a, b = int(mm.group(2)), int(mm.group(3))
+        if mm.group(1) is not None and int(mm.group(1)) != b - a:
+            conv_mismatch.append((name, int(mm.group(1)), a, b))
+        rb.append((name, a, b - a))
+    facts["ralConvMismatch"] = conv_mismatch
     mm = re.search(r"let payload\s*=\s*byteVecSlice!\(body,\s*(\d+),\s*size!\(body\)\)", fn)
     if not mm:
         ctx.gen_fail("C04", "payload slice not found in parseAndVerifyVAA"); return None
@@ -125,6 +128,7 @@ def gen(ctx):
     src += "def ralSigStart : Nat := %d\ndef ralSigStride : Nat := %d\n" % (f["ralSigStart"], f["ralSigStride"])
     src += "/-- body = data[a + signatureSize * b ..] -/\ndef ralBodyStart : Nat × Nat := (%d, %d)\n" % f["ralBodyStart"]
     src += "def ralBody : List (String × Nat × Nat) := %s\n" % lean_list(f["ralBody"])
+    src += "/-- fields whose integer conversion width differs from the slice it is applied to -/\ndef ralConvMismatch : Nat := %d\n" % len(f["ralConvMismatch"])
     src += "def ralDoubleHash : Bool := %s\n\n/-- structs.go: SigningMsg = Keccak(Keccak(serializeBody)) -/\ndef goDoubleHash : Bool := %s\n" % (b(f["ralDoubleHash"]), b(f["goDoubleHash"]))
     src += "\nend Whv.Gen.C04\n"
     ctx.gen("C04", src)
